@@ -17,6 +17,8 @@ abbrev Dict (α : Type) := List (Nat × α)
 
 def Dict.get {α : Type} (d : Dict α) (k : Nat) : Option α := List.lookup k d
 def Dict.set {α : Type} (d : Dict α) (k : Nat) (v : α) : Dict α := (k, v) :: d
+/-- Equal as Python dicts (same keys, same newest bindings). -/
+def Dict.same {α : Type} [BEq α] (a b : Dict α) : Bool := (a ++ b).all fun kv => a.get kv.1 == b.get kv.1
 
 /-- The context shared by the handlers (and with the container parser / formatter). -/
 structure Tabs where
@@ -27,6 +29,11 @@ structure Tabs where
   pendingNewthread : Dict Nat := []     -- last_data_newthread[tid].pid
   pendingExec : Dict Nat := []          -- last_data_exec[tid].pid
   deriving Repr, Inhabited
+
+def Tabs.same (a b : Tabs) : Bool :=
+  a.threadsPids.same b.threadsPids && a.pidsNames.same b.pidsNames && a.tidsNames.same b.tidsNames
+    && a.globalStrings.same b.globalStrings && a.pendingNewthread.same b.pendingNewthread
+    && a.pendingExec.same b.pendingExec
 
 structure Env where
   codes : Nat → Option String           -- trace_codes
@@ -110,6 +117,9 @@ structure TraceOut where
   events : List Kevent
   text : Except PyErr String
   extra : Extra := .none
+  /-- generated decoders: the dataclass name and the constructor arguments after `ktraces` (attribute reads of
+      a composite handler on a nested object, `handle_mach_vmfault`) -/
+  obj : Option (String × List Val) := none
   deriving Inhabited
 
 def findDecoder (env : Env) (name : String) : Option Decoder := env.decoders.find? (·.name == name)
@@ -122,15 +132,21 @@ def noLookupSel : Sel :=
 
 def usesLookups (d : Decoder) : Bool := !(d.fields.all (within noLookupSel))
 
-def runGenerated (env : Env) (t : Tabs) (d : Decoder) (events : List Kevent) :
-    Except PyErr (Except PyErr String) := do
+/-- The handler call of a generated decoder: the dataclass fields (an exception there aborts the stream) and
+    `__str__` (evaluated later). -/
+def runGeneratedObj (env : Env) (t : Tabs) (d : Decoder) (events : List Kevent) :
+    Except PyErr (List Val × Except PyErr String) := do
   let w ← mkWindow env t events (usesLookups d)
   let c : Ctx := { host := env.host, tables := env.tables, win := w }
   let fs ← evalFields c d.fields
-  pure (match eval { c with fields := fs } d.str with
+  pure (fs, match eval { c with fields := fs } d.str with
         | .ok (.str s) => .ok s
         | .ok _ => .error .typeError
         | .error e => .error e)
+
+def runGenerated (env : Env) (t : Tabs) (d : Decoder) (events : List Kevent) :
+    Except PyErr (Except PyErr String) :=
+  (runGeneratedObj env t d events).map (·.2)
 
 def arg (e : Kevent) (k : Nat) : Nat := (e.values[k]?).getD 0
 
@@ -286,57 +302,90 @@ def enumNameOfValue (env : Env) (enumName : String) (x : Nat) : Option String :=
 def vmProtNames (env : Env) (x : Nat) : List String :=
   if x = 0 then ["VM_PROT_NONE"] else enumNamesOf env "VmProtection" x
 
-/-- `handle_mach_vmfault` (the nested record goes through `parse_event_list`, i.e. the code table and the
-    generated RealFaultAddress* decoders; their enum lookups may raise ValueError). -/
-def hMachVmfault (env : Env) (t : Tabs) (events : List Kevent) : HRes :=
-  let s := firstOf events
-  let e := lastOf events
+def realFaultClasses : List String :=
+  ["RealFaultAddressInternal", "RealFaultAddressExternal", "RealFaultAddressSharedCache"]
+
+/-- `vm_fault_real.pid` and `vm_fault_real.caller_prot` on the object the nested handler returned: only the three
+    `RealFaultAddress*` dataclasses (fields after `ktraces`: vaddr, user_tag, caller_prot, fault_type, offset, pid)
+    and `MachVmfault` itself have both attributes; anything else raises AttributeError. -/
+def pidProtOf (out : TraceOut) : Except PyErr (Option Nat × Option (List String)) :=
+  match out.extra with
+  | .vmfault _ _ pid prot => .ok (pid, prot)
+  | _ =>
+    match out.obj with
+    | some (cls, fs) =>
+      if realFaultClasses.contains cls then
+        match (fs[5]? : Option Val), (fs[2]? : Option Val) with
+        | some (.int p), some (.members l) => .ok (some p.toNat, some (l.map (·.name)))
+        | _, _ => .error .unmodelled
+      else .error .attributeError
+    | none => .error .attributeError
+
+/-- `[e for e in events[1:-1] if 0x1320008 <= e.eventid <= 0x1320014]` -/
+def realEvents (events : List Kevent) : List Kevent :=
+  ((events.drop 1).dropLast).filter fun x => decide (0x1320008 ≤ x.eventid ∧ x.eventid ≤ 0x1320014)
+
+/-- The fields `handle_mach_vmfault` computes from `events[0]` (`s`), `events[-1]` (`e`) and the in-range records of
+    `events[1:-1]` (`inner`): `str(trace)` and the payload.  `nested` is `parser.parse_event_list`: the WHOLE list
+    of in-range records goes to whatever handler the code table names for the first of them (the generated
+    RealFaultAddress* decoders, whose enum lookup may raise ValueError; under another code table any handler,
+    including this one). -/
+def vmfaultCore (nested : Tabs → List Kevent → Except PyErr (Option TraceOut × Tabs))
+    (env : Env) (t : Tabs) (s e : Kevent) (inner : List Kevent) : Except PyErr ((String × Extra) × Tabs) :=
   let result := arg e 2
-  let head := s!"MachVmfault, addr: {pyHex (arg s 1)}, is_kernel: {if arg s 2 ≠ 0 then "True" else "False"}, result: {result}"
-  if result ≠ 0 then .ok (some (mk "MACH_vmfault" events head (.vmfault result none none none)), t) else
+  let head := s!"MachVmfault, addr: {pyHex (arg s 1)}, is_kernel: {if arg s 2 = 0 then "False" else "True"}, result: {result}"
+  if result ≠ 0 then .ok ((head, .vmfault result none none none), t) else
   match enumNameOfValue env "DbgVmFaultType" (arg e 3) with
   | none => .error .valueError
   | some ft =>
-    let inner := (events.drop 1).dropLast.filter fun x => 0x1320008 ≤ x.eventid ∧ x.eventid ≤ 0x1320014
-    match inner with
-    | [] => .ok (some (mk "MACH_vmfault" events (head ++ s!", type: {ft}") (.vmfault 0 (some ft) none none)), t)
-    | r :: _ =>
-      let known := match env.nameOf r with
-        | some n => ["RealFaultAddressInternal", "RealFaultAddressExternal", "RealFaultAddressSharedCache"].contains n
-                      && (findDecoder env n).isSome
-        | none => false
-      if !known then
-        -- parse_event_list returns None, or a decoder of another kind without pid/caller_prot would raise
-        match env.nameOf r with
-        | some n => if (findDecoder env n).isSome || handNames.contains n then .error .attributeError
-                    else .ok (some (mk "MACH_vmfault" events (head ++ s!", type: {ft}") (.vmfault 0 (some ft) none none)), t)
-        | none => .ok (some (mk "MACH_vmfault" events (head ++ s!", type: {ft}") (.vmfault 0 (some ft) none none)), t)
-      else
-        -- handle_real_fault_address: DbgVmFaultType(args[1] & 0xff) must be a member
-        match enumNameOfValue env "DbgVmFaultType" (arg r 1 &&& 0xff) with
-        | none => .error .valueError
-        | some _ =>
-          let pid := arg r 3      -- dataclass order: (…, fault_type, thread, pid) ← (…, args[2], args[3])
-          let prot := vmProtNames env ((arg r 1 >>> 8) &&& 0xff)
-          .ok (some (mk "MACH_vmfault" events
-                (head ++ s!", type: {ft}, vm_prot: {" | ".intercalate prot}, pid: {pid}")
-                (.vmfault 0 (some ft) (some pid) (some prot))), t)
+    let plain (t' : Tabs) : Except PyErr ((String × Extra) × Tabs) :=
+      .ok ((head ++ s!", type: {ft}", .vmfault 0 (some ft) none none), t')
+    if inner.isEmpty then plain t else
+    match nested t inner with
+    | .error err => .error err
+    | .ok (none, t') => plain t'                    -- `if vm_fault_real is not None`
+    | .ok (some out, t') =>
+      match pidProtOf out with
+      | .error err =>
+        -- the attribute read raises after the nested handler ran: tables it changed stay changed, which the error
+        -- channel cannot carry (only a nested PERF_THD_Data / PERF_Event under a custom code table can do that)
+        if t'.same t then .error err else .error .unmodelled
+      | .ok (some pid, some prot) =>
+        .ok ((head ++ s!", type: {ft}, vm_prot: {" | ".intercalate prot}, pid: {pid}",
+              .vmfault 0 (some ft) (some pid) (some prot)), t')
+      | .ok (pid, prot) => .ok ((head ++ s!", type: {ft}", .vmfault 0 (some ft) pid prot), t')
 
-def hDyldLaunch (env : Env) (t : Tabs) (events : List Kevent) : HRes :=
-  let imgs := ((events.filter (namedIs' env "DYLD_uuid_map_a")) ++ (events.filter (namedIs' env "DYLD_uuid_shared_cache_a"))).map
-    fun e => (arg e 2, e.data.take 16)
+/-- `handle_mach_vmfault`. -/
+def hMachVmfault (nested : Tabs → List Kevent → Except PyErr (Option TraceOut × Tabs))
+    (env : Env) (t : Tabs) (events : List Kevent) : Except PyErr (Option TraceOut × Tabs) :=
+  (vmfaultCore nested env t (firstOf events) (lastOf events) (realEvents events)).map
+    fun r => (some (mk "MACH_vmfault" events r.1.1 r.1.2), r.2)
+
+/-- `UUID(bytes=events[0].data[:16])` raises ValueError unless it gets 16 bytes. -/
+def uuidBytes (e : Kevent) : Except PyErr Bytes :=
+  let b := e.data.take 16
+  if b.length = 16 then .ok b else .error .valueError
+
+def namedExactly (env : Env) (n : String) (e : Kevent) : Bool := env.nameOf e == some n
+
+def insertStable (x : Nat × Bytes) : List (Nat × Bytes) → List (Nat × Bytes)
+  | [] => [x]
+  | y :: ys => if x.1 ≤ y.1 then x :: y :: ys else y :: insertStable x ys
+
+/-- `sorted(l, key=lambda x: x.load_addr)` (stable). -/
+def sortStable (l : List (Nat × Bytes)) : List (Nat × Bytes) := l.foldr insertStable []
+
+/-- `handle_timing_launch_executable`. -/
+def hDyldLaunch (env : Env) (t : Tabs) (events : List Kevent) : Except PyErr (Option TraceOut × Tabs) := do
+  let recs := events.filter (namedExactly env "DYLD_uuid_map_a") ++ events.filter (namedExactly env "DYLD_uuid_shared_cache_a")
+  let imgs ← recs.mapM fun e => do let u ← uuidBytes e; pure (arg e 2, u)
   let s := firstOf events
-  .ok (some (mk "DBG_DYLD_TIMING_LAUNCH_EXECUTABLE" events
+  pure (some (mk "DBG_DYLD_TIMING_LAUNCH_EXECUTABLE" events
         s!"DBG_DYLD_TIMING_LAUNCH_EXECUTABLE, main_executable_mh: {pyHex (arg s 1)}" (.launch (sortStable imgs))), t)
-where
-  namedIs' (env : Env) (n : String) (e : Kevent) : Bool := env.nameOf e == some n
-  sortStable (l : List (Nat × Bytes)) : List (Nat × Bytes) := l.foldr (fun x acc => insertStable x acc) []
-  insertStable (x : Nat × Bytes) : List (Nat × Bytes) → List (Nat × Bytes)
-    | [] => [x]
-    | y :: ys => if x.1 ≤ y.1 then x :: y :: ys else y :: insertStable x ys
 
-/-- `self.handlers[trace_name](self, events)` -/
-def handle (env : Env) (t : Tabs) (name : String) (events : List Kevent) : HRes :=
+/-- `self.handlers[trace_name](self, events)`; `nested` = `parser.parse_event_list` for the handlers that call it. -/
+def handleWith (nested : Tabs → List Kevent → Except PyErr (Option TraceOut × Tabs))
+    (env : Env) (t : Tabs) (name : String) (events : List Kevent) : HRes :=
   match name with
   | "TRACE_DATA_NEWTHREAD" => hDataNewthread env t events
   | "TRACE_DATA_EXEC" => hDataExec env t events
@@ -352,26 +401,41 @@ def handle (env : Env) (t : Tabs) (name : String) (events : List Kevent) : HRes 
   | "VFS_LOOKUP" => hVfsLookup env t events
   | "PERF_Event" => hPerfEvent env t events
   | "PERF_THD_Data" => hPerfThdData env t events
-  | "MACH_vmfault" => hMachVmfault env t events
+  | "MACH_vmfault" => hMachVmfault nested env t events
   | "DBG_DYLD_TIMING_LAUNCH_EXECUTABLE" => hDyldLaunch env t events
   | _ =>
     match findDecoder env name with
     | some d =>
       if !d.supported then .error .unmodelled else do
-      let text ← runGenerated env t d events
-      pure (some { name := name, events := events, text := text }, t)
+      let (fs, text) ← runGeneratedObj env t d events
+      pure (some { name := name, events := events, text := text, obj := some (d.cls, fs) }, t)
     | none => .ok (none, t)
 
 def isHandled (env : Env) (name : String) : Bool := handNames.contains name || (findDecoder env name).isSome
 
-/-- `parse_event_list`. -/
-def parseEventList (env : Env) (t : Tabs) (events : List Kevent) : HRes :=
+/-- `parse_event_list` around a given meaning of the recursive call. -/
+def parseEventListWith (nested : Tabs → List Kevent → Except PyErr (Option TraceOut × Tabs))
+    (env : Env) (t : Tabs) (events : List Kevent) : HRes :=
   match events with
   | [] => .error .indexError
   | e :: _ =>
     match env.codes e.eventid with
     | none => .ok (none, t)
-    | some name => if isHandled env name then handle env t name events else .ok (none, t)
+    | some name => if isHandled env name then handleWith nested env t name events else .ok (none, t)
+
+/-- `parse_event_list` with the recursion (MACH_vmfault -> parse_event_list on a list at least two records shorter)
+    unrolled `fuel` times; `fuel > events.length` is never exhausted (`C20.parseFuel_stable`). -/
+def parseFuel : Nat → Env → Tabs → List Kevent → HRes
+  | 0, _, _, _ => .error .unmodelled
+  | fuel + 1, env, t, events => parseEventListWith (parseFuel fuel env) env t events
+
+/-- `parse_event_list`. -/
+def parseEventList (env : Env) (t : Tabs) (events : List Kevent) : HRes :=
+  parseFuel (events.length + 1) env t events
+
+/-- `self.handlers[trace_name](self, events)` -/
+def handle (env : Env) (t : Tabs) (name : String) (events : List Kevent) : HRes :=
+  handleWith (parseFuel events.length env) env t name events
 
 structure PState where
   pairing : Pairing.PState
